@@ -129,6 +129,11 @@ func c14History(c *wk.Ctx, idx int64, ops []nop) (nForged int, viol bool) {
 		time.Sleep(o.Delay)
 		synctest.Wait()
 		tgt := c14Targets[o.T%len(c14Targets)]
+		if o.T >= 2*len(c14Targets) && tgt.IP.IsLinkLocalUnicast() {
+			// the same station under another link-local address: hunts are keyed (and idempotent) per MAC
+			tgt.IP = netip.AddrFrom16([16]byte{0xfe, 0x80, 14: 0xee, 15: byte(o.T)})
+			c.Obs("hunt_calls_with_another_address", 1)
+		}
 		ev := c14Event{t: time.Now(), seq: rec.Count(), kind: o.K, mac: string(tgt.MAC)}
 		pi := c.Guard("C14", func() any { return cs() }, func() {
 			switch o.K {
@@ -480,8 +485,14 @@ func runC14(c *wk.Ctx) {
 			switch x := r.Intn(16); {
 			case x < 5:
 				o.K = "start"
+				if r.Intn(5) == 0 {
+					o.T += 10 // same target index (mod 5), called with another link-local address
+				}
 			case x < 8:
 				o.K, o.T = "stop", r.Intn(3)
+				if r.Intn(5) == 0 {
+					o.T += 10
+				}
 			case x < 12:
 				o.K = "ra"
 			case x < 13:
